@@ -213,9 +213,12 @@ def run(ctx):
 
 def replay(ctx, path):
     vlib.build_harness()
-    with open(path) as f:
-        head = f.read(300)
-    if '"gengraph"' in head:
+    try:
+        whole = json.load(open(path))
+        kind = whole.get("replay", {}).get("kind") if isinstance(whole, dict) else None
+    except ValueError:
+        kind = None     # an ndjson trace
+    if kind == "gengraph":
         from checks import gengraph
         return gengraph.replay(ctx, path)
     with open(path) as f:
